@@ -38,6 +38,36 @@ def char_eq(a, b):
     return simp(bv(a, 32) == bv(b, 32))
 
 
+class ScalarKey(tuple):
+    """Key of a map whose keys are integers / chars (HashMap<u16, _>): a 1-tuple holding the scalar."""
+    __slots__ = ()
+
+
+def map_key(v):
+    """Key of the finite-map model: the code points of a string-like value, or the scalar itself."""
+    d = deref(v)
+    if isinstance(d, bool) or (not isinstance(d, int) and not is_sym(d)):
+        return elems_of(v)
+    return ScalarKey((d,))
+
+
+def key_eq(a, b):
+    if isinstance(a, ScalarKey) or isinstance(b, ScalarKey):
+        if not (isinstance(a, ScalarKey) and isinstance(b, ScalarKey)):
+            return False
+        x, y = a[0], b[0]
+        if not is_sym(x) and not is_sym(y):
+            return x == y
+        w = x.size() if is_sym(x) else y.size()
+        return simp(bv(x, w) == bv(y, w))
+    return str_eq(a, b)
+
+
+def key_value(k):
+    """The key as a Rust value again (for iteration)."""
+    return k[0] if isinstance(k, ScalarKey) else SString(list(k))
+
+
 def str_eq(a, b):
     """Equality of two code-point sequences -> Python bool or z3 Bool."""
     if len(a) != len(b):
@@ -1181,7 +1211,13 @@ def register_all(M):
             entries = []
             for kv in out:
                 k, v = kv.fields
-                entries.append([elems_of(k), v])
+                key = map_key(k)
+                # a later pair with the same key replaces the earlier one
+                dup = [e for e in entries if key_eq(e[0], key) is True]
+                if dup:
+                    dup[0][1] = v
+                else:
+                    entries.append([key, v])
             return SMap("collected", entries)
         if target == "Cow":
             return Agg("adt:Cow", 1, [SString(out)])
@@ -1523,7 +1559,7 @@ def register_all(M):
     def map_find(it, m, key):
         """Index of the entry whose key equals `key` on this path, or None. Forks on symbolic equality."""
         for i, (k, _) in enumerate(m.entries):
-            e = str_eq(k, key)
+            e = key_eq(k, key)
             if e is True:
                 return i
             if e is False:
@@ -1537,7 +1573,7 @@ def register_all(M):
     @reg("HashMap::get")
     def m_map_get(it, args, callee):
         m = deref(args[0])
-        key = elems_of(args[1])
+        key = map_key(args[1])
         if isinstance(m, Opaque):
             raise Unsupported("HashMap::get on opaque map %s" % m.tag)
         i = map_find(it, m, key)
@@ -1546,7 +1582,7 @@ def register_all(M):
         if m.oracle is not None:
             v = m.oracle(it, m, key)
             if v is not None:
-                m.entries.append([tuple(key), v])
+                m.entries.append([key if isinstance(key, ScalarKey) else tuple(key), v])
                 return some(Ref(m.entries[-1], 1))
         return none()
 
@@ -1557,13 +1593,13 @@ def register_all(M):
     @reg("HashMap::insert")
     def m_map_insert(it, args, callee):
         m = deref(args[0])
-        key = elems_of(args[1])
+        key = map_key(args[1])
         i = map_find(it, m, key)
         if i is not None:
             old = m.entries[i][1]
             m.entries[i][1] = args[2]
             return some(old)
-        m.entries.append([tuple(key), args[2]])
+        m.entries.append([key if isinstance(key, ScalarKey) else tuple(key), args[2]])
         return none()
 
     @reg("HashMap::iter", "HashMap::iter_mut")
@@ -1571,14 +1607,14 @@ def register_all(M):
         m = deref(args[0])
         if m.oracle is not None:
             raise Unsupported("iteration over an oracle-backed map")
-        return ItOwned([Agg("tuple", None, [Ref([SString(k)], 0), Ref(e, 1)]) for e in m.entries for k in [e[0]]])
+        return ItOwned([Agg("tuple", None, [Ref([key_value(k)], 0), Ref(e, 1)]) for e in m.entries for k in [e[0]]])
 
     @reg("HashMap::keys")
     def m_map_keys(it, args, callee):
         m = deref(args[0])
         if m.oracle is not None:
             raise Unsupported("iteration over an oracle-backed map")
-        return ItOwned([Ref([SString(e[0])], 0) for e in m.entries])
+        return ItOwned([Ref([key_value(e[0])], 0) for e in m.entries])
 
     @reg("HashMap::values", "HashMap::values_mut")
     def m_map_values(it, args, callee):
@@ -1627,7 +1663,7 @@ def register_all(M):
     @reg("HashMap::remove")
     def m_map_remove(it, args, callee):
         m = deref(args[0])
-        i = map_find(it, m, elems_of(args[1]))
+        i = map_find(it, m, map_key(args[1]))
         if i is None:
             return none()
         return some(m.entries.pop(i)[1])
@@ -1815,6 +1851,27 @@ def register_all(M):
     @reg("Box::new")
     def m_box_new(it, args, callee):
         return Box(args[0])
+
+    @reg("Box::into_raw", "Box::leak")
+    def m_box_into_raw(it, args, callee):
+        b = args[0]
+        if isinstance(b, Box):
+            return Ref(b.cell, 0, True)       # the raw pointer to the heap cell
+        raise Unsupported("Box::into_raw on %r" % (b,))
+
+    @reg("Box::from_raw")
+    def m_box_from_raw(it, args, callee):
+        r = args[0]
+        if isinstance(r, Ref):
+            b = Box(None)
+            if isinstance(r.container, list) and r.key == 0:
+                b.cell = r.container
+                return b
+        raise Unsupported("Box::from_raw on %r" % (r,))
+
+    @reg("ptr::is_null", "const_ptr::is_null", "mut_ptr::is_null")
+    def m_ptr_is_null(it, args, callee):
+        return not isinstance(args[0], Ref)
 
     @reg("RefCell::new")
     def m_refcell_new(it, args, callee):
